@@ -4,7 +4,7 @@ import hashlib
 from hypothesis import strategies as st
 
 from .. import gen
-from ..engine import Sub, Violation
+from ..engine import Inconclusive, Sub, Violation
 from ..fake import env, net, ops
 from ..ref import wire
 from . import c03
@@ -164,9 +164,8 @@ def body_slow(rep, case):
         raise Violation(f"C09/state-query-retry-raises-{type(res).__name__}/op={kind}/after-slow-reply", case,
                         "a parsed response or RuntimeError", f"{type(res).__name__}: {res}")
     if status == "timeout":
-        # asyncio.TimeoutError is what wait_for raises: ours (the operation never ended) or the library's own
-        raise Violation(f"C09/state-query-raises-TimeoutError/op={kind}/{ftag}", case, "a parsed response or RuntimeError",
-                        "TimeoutError (or no completion at all)")
+        # the harness guard (40 s + twice the delay, on the harness-owned clock) expired: the query never ended
+        raise Inconclusive(f"{kind}: no completion within the harness guard after a reply delayed by {fault['secs']} s")
     if status == "raise":
         if not isinstance(res, RuntimeError):
             raise Violation(f"C09/state-query-raises-{type(res).__name__}/op={kind}/{ftag}", case,
